@@ -175,6 +175,24 @@ func init() {
 	checks["C12"] = func(c *Ctx) *Result {
 		r := runSpecs(c, c12Specs(c.Tier))
 		runLongChainPrunes(c, r, []Oracle{oracleReach()}, []Cfg{defaultCfg, {Fast: false, Cache: 3}})
+		if r.Found == nil && len(r.Raw) == 0 {
+			// long version chains with a rollback (version numbers with several decimal digits): storage and index after
+			// every rollback pair (latest, target), see c09_long.go
+			maxL := 16
+			if c.Tier == "thorough" {
+				maxL = 40
+			}
+			n, fail := longChainRollbacksWith(maxL, defaultCfg, oracleReach())
+			r.States += n
+			r.Transitions += n
+			if fail != "" {
+				if id := c.KF.MatchRaw(c.ID, fail); id != "" {
+					c.KF.NoteRaw(id, fail)
+				} else {
+					rawViolation(c, r, fail, map[string]any{"supplement": "long-chain rollbacks"})
+				}
+			}
+		}
 		r.Assumptions = []string{"crash-free histories, synchronous pruning; the raw storage is decoded by the independent codec (check/ref/codec.go)"}
 		return r
 	}
